@@ -1,6 +1,80 @@
 package main
 
+import (
+	"bytes"
+	"go/ast"
+	"go/printer"
+	"go/token"
+	"strings"
+)
+
+func c07Src(rel string, n ast.Node) string {
+	var b bytes.Buffer
+	_ = printer.Fprint(&b, load(rel).fset, n)
+	return b.String()
+}
+
 func factsC07() {
 	// AddBackendPath: ID: fmt.Sprintf("path%02d", len(b.Paths)+1)
 	addStr("c07PathIDFormat", one(callArgs("pkg/haproxy/types/backend.go", "AddBackendPath", "fmt.Sprintf", 0), "path id format"), "backend.go AddBackendPath: format of a path id")
+	factsC07Ids()
+}
+
+// factsC07Ids pins the statement shape of syncBackendEndpointHashes (server ids of assign-backend-server-id),
+// the function modelled by HapVerif.C07.Ids (Model/C07Ids.lean).
+func factsC07Ids() {
+	rel := "pkg/converters/ingress/ingress.go"
+	fd := funcDecl(rel, "syncBackendEndpointHashes")
+	// the whole body, one trimmed source line per item, comments and logging left out
+	var body []string
+	for _, l := range strings.Split(c07Src(rel, fd.Body), "\n") {
+		l = strings.TrimSpace(l)
+		if l == "" || strings.HasPrefix(l, "c.logger.") {
+			continue
+		}
+		body = append(body, l)
+	}
+	addStrList("c07IdsBody", body, "ingress.go syncBackendEndpointHashes: the body, one trimmed line per item (comments and logger calls left out)")
+	// every value assigned to `hash`, in source order: the 31 bit mask is applied where the hash is computed AND
+	// in the probing step
+	var assigns []string
+	// the condition that leaves the probing loop (the `if` whose body is `break`)
+	var exits []string
+	// what is recorded as used and what is written
+	var used, written []string
+	ast.Inspect(fd.Body, func(n ast.Node) bool {
+		switch v := n.(type) {
+		case *ast.AssignStmt:
+			if len(v.Lhs) == 1 && len(v.Rhs) == 1 {
+				lhs := c07Src(rel, v.Lhs[0])
+				switch {
+				case lhs == "hash":
+					assigns = append(assigns, v.Tok.String()+" "+c07Src(rel, v.Rhs[0]))
+				case strings.HasPrefix(lhs, "usedPUIDS["):
+					used = append(used, lhs)
+				case lhs == "ep.PUID":
+					written = append(written, c07Src(rel, v.Rhs[0]))
+				}
+			}
+		case *ast.IncDecStmt:
+			if c07Src(rel, v.X) == "hash" {
+				assigns = append(assigns, v.Tok.String())
+			}
+		case *ast.IfStmt:
+			if len(v.Body.List) == 1 {
+				if b, ok := v.Body.List[0].(*ast.BranchStmt); ok && b.Tok == token.BREAK {
+					exits = append(exits, c07Src(rel, v.Cond))
+				}
+			}
+		case *ast.IndexExpr:
+			if c07Src(rel, v.X) == "usedPUIDS" {
+				used = append(used, "read "+c07Src(rel, v.Index))
+			}
+		}
+		return true
+	})
+	addStrList("c07IdsHashAssigns", assigns, "ingress.go syncBackendEndpointHashes: every assignment to `hash` (operator and right-hand side), in source order")
+	addStrList("c07IdsExitCond", exits, "ingress.go syncBackendEndpointHashes: condition of the `if ... { break }` that ends the probing loop")
+	addStrList("c07IdsUsed", used, "ingress.go syncBackendEndpointHashes: accesses to usedPUIDS (assignment targets and index reads), in source order")
+	addStrList("c07IdsWritten", written, "ingress.go syncBackendEndpointHashes: the value assigned to ep.PUID")
 }
